@@ -23,7 +23,7 @@ PID = 'C14'
 
 META = {
     'technique': 'CFG may-analysis for NULL dominance + lockset dataflow + dominance of range tests + call-graph reachability of blocking primitives',
-    'text': 'Decides four structural clauses on every path of all EB_API functions: NULL-argument tests dominate every dereference (interprocedural), no API exit leaves a mutex held (so a rejected configuration leaves the handle usable), caller-controlled counts are range-tested before bounding array accesses in the set_parameter flow, only allow-listed blocking primitives are reachable per API function, a teardown call joins the pipeline threads only after signalling their shutdown itself, a teardown that frees what a process-global pointer designates is safe to repeat, and decoder teardown touches first-frame resources only when they exist. Structure, not behaviour: it does not execute call sequences.',
+    'text': 'Decides four structural clauses on every path of all EB_API functions: NULL-argument tests dominate every dereference (interprocedural), no API exit leaves a mutex held (so a rejected configuration leaves the handle usable), caller-controlled counts are range-tested before bounding array accesses in the set_parameter flow, only allow-listed blocking primitives are reachable per API function, a teardown call joins the pipeline threads only after signalling their shutdown itself, a teardown that frees what a process-global pointer designates is safe to repeat, and decoder teardown touches first-frame resources only when they exist. Structure, not behaviour: it does not execute call sequences. Also decided: the payload pointers inside the structures the caller hands over (plane pointers of the picture, the buffer svt_av1_get_recon copies into) are NULL-tested before use, and decoder configuration members used as allocation sizes or loop bounds are range-tested by svt_av1_dec_set_parameter.',
     'note': 'clang 14 front end/CFG; production flags from CMake (-DNDEBUG); handle-internal state (p_component_private) assumed valid; function-pointer targets resolved from address-taken facts',
     'ref': 'DESIGN.md section 5 C14',
 }
@@ -230,7 +230,27 @@ def rule3(P, rep):
             args = ev['e'][2]
             if len(args) < 3:
                 continue
-            fl = [x for x in fields_in(args[2]) if x.startswith(cfgrec)]
+            # the length may be prepared in a local (const size_t n = sizeof(T) * MIN(cfg->count, EXTENT)): look through
+            # single-definition locals
+            def _expand(x, depth=0):
+                x = strip(x)
+                if x is None or depth > 3:
+                    return x
+                if x[0] == 'v' and x[2] == 'l':
+                    ds = [d for d in f.events(('decl', 'st')) if (d['k'] == 'decl' and d['n'] == x[1] and d.get('e') is not None) or
+                          (d['k'] == 'st' and d['e'][0] == 'a' and d['e'][1] == '=' and strip(d['e'][2]) == x)]
+                    if len(ds) == 1:
+                        return _expand(ds[0]['e'] if ds[0]['k'] == 'decl' else ds[0]['e'][3], depth + 1)
+                    return x
+                if x[0] in ('b',):
+                    return [x[0], x[1], _expand(x[2], depth), _expand(x[3], depth)] + list(x[4:])
+                if x[0] == 'q':
+                    return [x[0], _expand(x[1], depth), _expand(x[2], depth), _expand(x[3], depth)] + list(x[4:])
+                if x[0] == 'k':
+                    return _expand(x[-1], depth)
+                return x
+            lenx = _expand(args[2])
+            fl = [x for x in fields_in(lenx) if x.startswith(cfgrec)] if lenx is not None else []
             if not fl:
                 continue
             dst = strip(args[0])
@@ -248,6 +268,21 @@ def rule3(P, rep):
                 continue
             key = '%s/%s(%s,len~%s)' % (f.name, name, fn_, fl[0].split('.', 1)[1])
             ok = _guarded(f, ev, fl[0])
+            if not ok:
+                # a length that stays within the destination for the largest count (MIN against the extent) needs no range test
+                from rules.C20 import _ev as _pev
+                esz = {'uint8_t': 1, 'int8_t': 1, 'uint16_t': 2, 'int16_t': 2, 'uint32_t': 4, 'int32_t': 4, 'uint64_t': 8, 'int64_t': 8, 'EbBool': 1}
+                cap = None
+                for fd in r['fields']:
+                    if fd['n'] == fn_:
+                        base_t = fd.get('t', '').split('[')[0].strip()
+                        if base_t in esz:
+                            cap = esz[base_t]
+                            for dmn in dims:
+                                cap *= dmn
+                if cap is not None:
+                    worst = _pev(lenx, {fl[0]: 1 << 30}, {})
+                    ok = worst is not None and worst <= cap
             rep.ob('C14.3-BOUND', key, ok, f.loc(ev),
                    ('copy into %s (extent %s) with a length computed from caller-controlled %s ' % (dfield, dims, fl[0])) +
                    ('is dominated by a range test' if ok else 'with no dominating range test of that count'),
@@ -698,8 +733,137 @@ def run(P, rep, tier):
     rule6(P, rep, apis)
     rule7(P, rep, apis)
     rule1b(P, rep, apis)
+    rule1c(P, rep, apis)
+    rule3d(P, rep)
     rep.floor('C14.1-NULLDOM', 30)
     rep.floor('C14.2-PAIR', 1)
     rep.floor('C14.3-BOUND', 5)
     rep.floor('C14.4-BLOCK', 25)
     rep.floor('C14.5-NBQUIT', 1)
+
+
+def rule1c(P, rep, apis):
+    """C14.1c-PAYLOAD: payload pointers inside the caller's structures.  The picture handed to svt_av1_enc_send_picture is a header
+    whose p_buffer designates an EbSvtIOFormat with three plane pointers; the buffer handed to svt_av1_get_recon is a header whose
+    p_buffer the library copies into.  Each such pointer is a caller-supplied buffer pointer in the sense of the property: a use of it
+    (any call argument built from it: the copy loops, the unpacking kernels) needs a NULL test of that pointer with an error return in
+    the API function itself, before the call chain that uses it, or a dominating test in the using function."""
+    IO = ('EbSvtIOFormat.luma', 'EbSvtIOFormat.cb', 'EbSvtIOFormat.cr')
+    HB = 'EbBufferHeaderType.p_buffer'
+    n = 0
+    for a in apis:
+        if a.lib != 'Encoder' or a.nocfg:
+            continue
+        hp = [i for i, (pn, pt) in enumerate(a.params) if pt.replace(' ', '') == 'EbBufferHeaderType*']
+        if not hp:
+            continue
+        chain = [g for g in P.reachable_from([a]) if g.lib == 'Encoder' and g.sub == 'Globals' and not g.nocfg]
+
+        def _tested_in_api(field):
+            for rv in a.events(('ret',)):
+                v = strip(rv.get('e')) if rv.get('e') is not None else None
+                if v is not None and v[0] == 'l' and v[1] == 0:
+                    continue
+                for kind, cond, line in a.ctl_chain(rv)[:1]:
+                    if kind == 'if' and cond is not None and any(x[0] == 'm' and x[1] == field and
+                                                                  (field != HB or (len(x) > 3 and strip(x[3]) is not None and strip(x[3])[0] == 'v' and strip(x[3])[1] in hdr_names))
+                                                                  for x in subexprs(cond)):
+                        return True
+            return False
+        hdr_names = set(a.params[i][0] for i in hp)
+        # which parameters of the functions of the chain receive the caller's header
+        caller_param = {a.key: set(a.params[i][0] for i in hp)}
+        for _ in range(3):
+            for g in chain:
+                own = caller_param.get(g.key, set())
+                if not own:
+                    continue
+                for cv in g.events(('call',)):
+                    for h in P.call_targets(g, cv):
+                        if h not in chain:
+                            continue
+                        for ai, arg in enumerate(cv['e'][2] or ()):
+                            x = strip(arg)
+                            while x is not None and x[0] == 'k':
+                                x = strip(x[-1])
+                            if x is not None and x[0] == 'v' and x[1] in own and ai < len(h.params):
+                                caller_param.setdefault(h.key, set()).add(h.params[ai][0])
+        for g in chain:
+            own = caller_param.get(g.key, set())
+            for cv in g.events(('call',)):
+                for arg in cv['e'][2] or ():
+                    for x in subexprs(arg):
+                        if x[0] != 'm':
+                            continue
+                        fld = None
+                        if x[1] in IO:
+                            fld = x[1]
+                        elif x[1] == HB and len(x) > 3 and strip(x[3]) is not None and strip(x[3])[0] == 'v' and strip(x[3])[1] in own:
+                            fld = x[1]           # the payload pointer handed to a copy routine or passed on to be cast
+                        if not fld:
+                            continue
+                        n += 1
+                        base = strip(x[3])[1] if len(x) > 3 and strip(x[3]) is not None and strip(x[3])[0] == 'v' else None
+                        local = any(c is not None and any(y[0] == 'm' and y[1] == fld and len(y) > 3 and strip(y[3]) is not None and strip(y[3])[0] == 'v' and strip(y[3])[1] == base
+                                                          for y in subexprs(c)) for k, c, l in g.ctl_chain(cv) if k == 'if')
+                        ok = local or _tested_in_api(fld)
+                        rep.ob('C14.1c-PAYLOAD', '%s/%s/%s@%d' % (a.name, g.name, fld.split('.')[1], cv['l']), ok, g.loc(cv),
+                               ('%s is NULL-tested with an error return before %s uses it' % (fld.split('.')[1], g.name)) if ok else
+                               ('%s uses the caller\'s %s (%s) without any NULL test of it on the way from %s: a header whose payload pointer is NULL crashes the library instead of being refused with EB_ErrorBadParameter' %
+                                (g.name, fld.split('.')[1], pstr(strip(arg))[:50], a.name)))
+    rep.floor('C14.1c-PAYLOAD', 4)
+
+
+def rule3d(P, rep):
+    """C14.3d-DECCFG: a member of the decoder configuration that decoder code uses as an allocation size or as a loop bound (directly or
+    through a single-definition local) is range-tested, with an error return, in svt_av1_dec_set_parameter: the structure is copied
+    from the caller as it is, and nothing else stands between a nonsensical count and the code that sizes its arrays with it."""
+    CFG = 'EbSvtAv1DecConfiguration.'
+    setp = P.fn('svt_av1_dec_set_parameter')
+    uses = {}
+    for f in P.fns:
+        if f.lib != 'Decoder' or f.nocfg:
+            continue
+        loc = {}
+        for d in f.events(('decl', 'st')):
+            e = d.get('e')
+            if e is None:
+                continue
+            if d['k'] == 'decl':
+                n, rhs = d['n'], e
+            elif e[0] == 'a' and e[1] == '=' and strip(e[2])[0] == 'v':
+                n, rhs = strip(e[2])[1], e[3]
+            else:
+                continue
+            ms = [x[1] for x in subexprs(rhs) if x[0] == 'm' and x[1].startswith(CFG)]
+            if ms:
+                loc[n] = ms[0]
+
+        def members(x):
+            return [y[1] for y in subexprs(x) if y[0] == 'm' and y[1].startswith(CFG)] + [loc[y[1]] for y in subexprs(x) if y[0] == 'v' and y[1] in loc]
+        for par, kind, cond, line in f.ctl:
+            if kind in ('for', 'while') and cond is not None:
+                for m in members(cond):
+                    uses.setdefault(m, []).append(('loop bound', f, line))
+        for ev in f.events(('call',)):
+            n = callee_name(ev['e']) or ''
+            if 'alloc' in n:
+                for a in ev['e'][2]:
+                    for m in members(a):
+                        uses.setdefault(m, []).append(('allocation size', f, ev['l']))
+    if not uses:
+        raise AnalysisBroken('no decoder configuration member is used as a size or loop bound')
+    for m, us in sorted(uses.items()):
+        tested = False
+        for rv in setp.events(('ret',)):
+            v = strip(rv.get('e')) if rv.get('e') is not None else None
+            if v is not None and v[0] == 'l' and v[1] == 0:
+                continue
+            for kind, cond, line in setp.ctl_chain(rv)[:1]:
+                if kind == 'if' and cond is not None and any(x[0] == 'm' and x[1] == m for x in subexprs(cond)):
+                    tested = True
+        kind, f, line = us[0]
+        rep.ob('C14.3d-DECCFG', 'svt_av1_dec_set_parameter/%s' % m.split('.')[1], tested, setp.loc(),
+               ('%s (%d uses as allocation size / loop bound, e.g. %s in %s) is range-tested by svt_av1_dec_set_parameter' % (m.split('.')[1], len(us), kind, f.name)) if tested else
+               ('%s is copied from the caller untested and used %d times as allocation size / loop bound (e.g. %s in %s:%d): a nonsensical value crashes the decoder instead of being refused' % (m.split('.')[1], len(us), kind, f.name, line)))
+    rep.floor('C14.3d-DECCFG', 1)
